@@ -143,6 +143,24 @@ def check(ctx):
             locs = [x for x in subterms(inner) if x == ("a", n("self"), "_loc")]
             ok_q = (inner[0] == "op" and inner[1] == "@" and len(mats) == 1
                     and len(locs) >= 1)
+            # exact shape of the quadratic form: row(d) @ prec @ column(d), d = x - loc
+            d_ = ("op", "-", n(lpf.params()[1]), ("a", n("self"), "_loc"))
+            row = ("call", ("g", "jax.numpy.expand_dims"), (d_,), (("axis", c(-2)),))
+            rows = {row, ("call", ("g", "jax.numpy.expand_dims"), (d_, c(-2)), ())}
+            prec_ = ("a", n("self"), "_prec")
+            ok_form = False
+            for rw in rows:
+                cols = {("call", ("g", "jax.numpy.swapaxes"), (rw, c(-2), c(-1)), ()),
+                        ("call", ("g", "jax.numpy.swapaxes"), (rw, c(-1), c(-2)), ()),
+                        ("call", ("g", "jax.numpy.expand_dims"), (d_,), (("axis", c(-1)),)),
+                        ("a", rw, "mT")}
+                for cl_ in cols:
+                    if inner in (("op", "@", ("op", "@", rw, prec_), cl_),
+                                 ("op", "@", rw, ("op", "@", prec_, cl_))):
+                        ok_form = True
+            ax = kw(quad[0], "axis", 1)
+            ok_q = ok_q and ok_form and ax in (("tuple", (c(-2), c(-1))),
+                                               ("tuple", (c(-1), c(-2))), None)
         ok_lp = ok_lp and ok_q
     except Untranslatable as ex:
         detail = f"untranslatable: {short(ex.args[0])}"
@@ -165,6 +183,41 @@ def check(ctx):
             ok_p = w[2][1] == n("eigenvalues") and w[2][2] == c(1.0)
     ctx.ob("C18.R1", pd, "_log_pdet sums the logs of the selected eigenvalues (others "
                          "contribute log 1 = 0)", ok_p, detail=short(rp or ()))
+    # which eigenvalues are selected: above the tolerance, or -- with a supplied rank --
+    # the `rank` largest ones (eigvalsh sorts ascending: the last `rank` indices)
+    ok_sel, sel_detail = False, ""
+    if ok_p:
+        from ..domains import concrete as _cc
+        mask = rp[2][0][2][0][2][0]
+        ev_ = n("eigenvalues")
+        size_t = ("s", ("a", ev_, "shape"), c(-1))
+        if mask[0] == "phi" and mask[1] == ("cmp", "is", n("rank"), c(None)):
+            no_rank, with_rank = mask[2], mask[3]
+            ok_a = no_rank == cmp_(">", ev_, n("tol"))
+            ok_b = False
+            if is_call(with_rank, "jax.lax.fori_loop") and with_rank[2][:2] == (c(0), size_t) \
+                    and len(with_rank[2]) == 4 and with_rank[2][2][0] == "fn":
+                fnf = repo.functions.get(with_rank[2][2][1])
+                rf = evaluate(repo, fnf, closure=evaluate(repo, pd).closure()).ret()
+                i_p, x_p = (n(p_) for p_ in fnf.params()[:2])
+                if rf is not None and rf[0] == "call" and rf[1][0] == "a" and rf[1][2] == "set" \
+                        and rf[1][1] == ("s", ("a", x_p, "at"), ("tuple", (c(Ellipsis), i_p))) \
+                        and len(rf[2]) == 1:
+                    from .c13 import partial_eval as _pe
+                    pred = _pe(rf[2][0], {("cmp", "is", n("rank"), c(None)): False})
+                    try:
+                        ok_b = all(
+                            {i for i in range(k) if _cc.evaluate(
+                                pred, {i_p: i, size_t: k, n("rank"): r})} == set(range(k - r, k))
+                            for k in (1, 3, 4) for r in range(0, k + 1))
+                    except _cc.Unmodelled as e:
+                        sel_detail = f"unmodelled {e}"
+            ok_sel = ok_a and ok_b
+            sel_detail = sel_detail or f"tolerance mask ok={ok_a}; rank mask ok={ok_b}"
+    ctx.ob("C18.R1", pd, "selected = eigenvalues above the tolerance, or, with a supplied "
+                         "rank r, exactly the last r (largest) eigenvalues", ok_sel,
+           unproven="unmodelled" in sel_detail, detail=sel_detail,
+           stmt="log_pdet selection " + sel_detail[:80])
 
     # ------------------------------------------------------------------ R5 sampling
     sq = method(repo, mv, "_sqrt_pcov", own=True)
